@@ -41,7 +41,32 @@ def gen_pair(rng):
                       callables=[l2.fa, l2.fd, l2.fg, l2.Ka, l2.Kb, l2.Dc] + ([l2.fb, l2.fc] if rng.random() < 0.25 else []))
   if not isinstance(old, config_lib.Buildable):
     old = fdl.Config(l2.fd, x=old)
+  if rng.random() < 0.1:
+    # a dict whose keys are of ONE type without "<" (enum members, complex numbers, classes), inside a
+    # Buildable that stays value-equal on the other side
+    bs = [b for b in c02.reachable(old) if isinstance(b, config_lib.Buildable)
+          and not isinstance(b, config_lib.TaggedValueCls)]
+    b = rng.choice(bs)
+    free = [p[0] for p in l2.sig_params(b.__fn_or_cls__) if p[1] in ("PosOrKw", "KwOnly") and p[0] not in b.__arguments__]
+    keys = rng.choice([[l2.Color.RED, l2.Color.BLUE], [l2.Ka, l2.Kb], [l2.fa, l2.fd, l2.fg]])
+    if free:
+      try:
+        setattr(b, rng.choice(free), {k: ([i] if i % 2 else i) for i, k in enumerate(keys)})
+      except (AttributeError, TypeError):
+        pass
   r = rng.random()
+  if r > 0.94:
+    # the ROOT of one side is an object of the other side (or the two sides are one object)
+    how = rng.randrange(4)
+    wrap = lambda inner: type(inner)(l2.fd, x=rng.choice([inner, [inner], {"k": inner}]), y=1)
+    if how == 0:
+      return old, wrap(old), "shares-identity:new-wraps-old"
+    if how == 1:
+      return wrap(old), old, "shares-identity:old-wraps-new"
+    if how == 2:
+      return old, old, "shares-identity:same-object"
+    inner = copy.deepcopy(old)
+    return old, type(old)(l2.fd, x=[old, inner], y=inner), "shares-identity:new-wraps-old-and-copy"
   if r < 0.1:
     new, _ = l2.gen_dag(rng, rng.randint(2, 8), buildable_types=("Config",),
                         callables=[l2.fa, l2.fd, l2.fg, l2.Ka])
@@ -58,6 +83,24 @@ def gen_pair(rng):
   # rewrites inside tuples (a tuple cannot be edited in place: the differ must replace it)
   for _ in range(rng.randint(0, 2) if rng.random() < 0.35 else 0):
     k = tuple_rewrite(rng, new)
+    if k:
+      kinds.append(k)
+  if rng.random() < 0.25 and isinstance(new, config_lib.Buildable):
+    # a NEW subtree (nothing of old can be aligned with it): a Buildable whose **kwargs entries carry tags
+    sub = rng.choice([fdl.Config, fdl.Partial])(l2.fd, lr=0.5, name="sgd", extra=[1])
+    for nm in rng.sample(["lr", "name", "extra"], rng.randint(1, 3)):
+      fdl.add_tag(sub, nm, rng.choice(l2.TAGS))
+    holders = [x for x in c02.reachable(new) if isinstance(x, list)]
+    names = [p[0] for p in l2.sig_params(new.__fn_or_cls__) if p[1] in ("PosOrKw", "KwOnly")]
+    free = [n for n in names if n not in new.__arguments__]
+    if holders and rng.random() < 0.5:
+      rng.choice(holders).append(sub)
+      kinds.append("new-subtree-kwargs-tags")
+    elif free:
+      setattr(new, rng.choice(free), sub if rng.random() < 0.5 else {"k": sub})
+      kinds.append("new-subtree-kwargs-tags")
+  if rng.random() < 0.2:
+    k = subclass_rewrite(rng, new)
     if k:
       kinds.append(k)
   if r < 0.25:
@@ -112,6 +155,34 @@ def tuple_rewrite(rng, root):
   x, k = rng.choice(slots)
   try:
     c06.set_slot(x, k, t2)
+  except (AttributeError, TypeError):
+    return None
+  return kind
+
+
+def subclass_rewrite(rng, root):
+  """Replaces a container of new by an equal container whose type is a proper SUBCLASS of the old type
+  (dict -> defaultdict, 2-tuple -> NamedTuple, NamedTuple -> its subclass): == holds between the two in
+  Python, but another type is configured."""
+  import collections
+  cands = []
+  for x in c02.reachable(root):
+    slots = c06.slots_holding(root, x)
+    if not slots:
+      continue
+    if type(x) is dict:
+      cands.append((x, slots, lambda d: collections.defaultdict(list, d), "subclass-defaultdict"))
+    elif type(x) is tuple and len(x) == 2:
+      cands.append((x, slots, lambda t: l2.NT(*t), "subclass-namedtuple"))
+    elif type(x) is l2.NT:
+      cands.append((x, slots, lambda t: l2.NTSub(*t), "subclass-namedtuple-sub"))
+  if not cands:
+    return None
+  x, slots, conv, kind = rng.choice(cands)
+  y = conv(x)
+  try:
+    for holder, k in slots:
+      c06.set_slot(holder, k, y)
   except (AttributeError, TypeError):
     return None
   return kind
